@@ -47,7 +47,8 @@ NEG = {
     "C07": [("seeded-strict-removal-test", "SeededBinseg", bconsts("contains", N=5, L=5, K=2, RemoveTest="strict"),
              ["GreedyCharacterisation", "Terminates", "NothingLeft"], "Init", None)],
     "C09": [("circular-touching-counts-as-overlap", "SeededBinseg", bconsts("overlaps", RemoveTest="touch"), ["GreedyCharacterisation"], "Init", None)],
-    "C08": [("moving-window-short-left-window", "MovingWindow", mw_consts(N=6, B=1, LeftWindow="short"), ["ScoreIsDefinition", "Reversal"], "Init", None)],
+    "C08": [("moving-window-short-left-window", "MovingWindow", mw_consts(N=6, B=1, LeftWindow="short"), ["ScoreIsDefinition", "Reversal"], "Init", None),
+            ("moving-window-weak-exceedance", "MovingWindow", mw_consts(N=6, B=1, Exceed="weak"), ["WhereIsMaximalRuns", "PeakOfRun"], "Init", None)],
     "C10": [(f"lifecycle-{leak}", "Lifecycle", dict(MaxLen=3, Sharing="shared", Tunes="none", Leak=leak, Emit=False, NSlices=1, Slice=0, EmitLen=3),
              ["NoLeak", "UpdateIsRefit"], "Init", None) for leak in ("cached_scores", "refit_if_unfit", "update_replaces", "keep_on_set")],
     "C11": [(f"representations-{c}", "Representations", dict(N=4, Conv=c, Emit=False), ["ValuesPreserved", "IndexCarried"], "Init", None)
